@@ -129,7 +129,7 @@ func main() {
 		if pkgName == "main" {
 			continue
 		}
-		info := &types.Info{Types: map[ast.Expr]types.TypeAndValue{}}
+		info := &types.Info{Types: map[ast.Expr]types.TypeAndValue{}, Uses: map[*ast.Ident]types.Object{}}
 		conf := types.Config{Importer: imp, Error: func(err error) {}}
 		importPath := *module
 		if dir != "." {
@@ -309,9 +309,55 @@ func simpleExpr(e ast.Expr) bool {
 	return false
 }
 
+// usesAtomic reports whether the statement (not looking into function literals or nested statement lists) calls
+// into sync/atomic: such a call is a synchronisation point, so the scheduler gets a say right before it.
+func (in *instrumenter) usesAtomic(st ast.Stmt) bool {
+	found := false
+	ast.Inspect(st, func(n ast.Node) bool {
+		if found {
+			return false
+		}
+		switch c := n.(type) {
+		case *ast.FuncLit, *ast.BlockStmt:
+			return false
+		case *ast.CallExpr:
+			if sel, ok := c.Fun.(*ast.SelectorExpr); ok {
+				if obj := in.info.Uses[sel.Sel]; obj != nil && obj.Pkg() != nil && obj.Pkg().Path() == "sync/atomic" {
+					found = true
+					return false
+				}
+			}
+		}
+		return true
+	})
+	return found
+}
+
+func (in *instrumenter) atomicYields(name string, list []ast.Stmt) {
+	for _, st := range list {
+		if _, isLabel := st.(*ast.LabeledStmt); isLabel {
+			continue
+		}
+		if in.usesAtomic(st) {
+			in.fe.need = true
+			in.add(in.off(st.Pos()), 0, "zzsimrt.Yield(\""+name+"/atomic\"); ")
+		}
+	}
+}
+
 func (in *instrumenter) body(name string, body *ast.BlockStmt, counter map[string]int, noYieldHere bool) {
 	labeled := map[ast.Stmt]bool{}
 	ast.Inspect(body, func(n ast.Node) bool {
+		if !*noYield && !noYieldHere {
+			switch b := n.(type) {
+			case *ast.BlockStmt:
+				in.atomicYields(name, b.List)
+			case *ast.CaseClause:
+				in.atomicYields(name, b.Body)
+			case *ast.CommClause:
+				in.atomicYields(name, b.Body)
+			}
+		}
 		switch s := n.(type) {
 		case *ast.LabeledStmt:
 			labeled[s.Stmt] = true
